@@ -9,13 +9,19 @@ EXTENDS Naturals, Sequences, FiniteSets, TLC
 Methods == {"iterate-exact", "iterate-expanded", "perturbative-exact", "perturbative-expanded",
             "truncated", "ordered-truncated", "decompose-exact", "decompose-expanded"}
 Svs == {"none", "expo", "expanded"}
-Shapes == {"single", "up", "down"}
+(* path shapes: one segment; one upward / downward crossing; "point": the target is the initial point (one   *)
+(* zero-length segment); "wall": an upward crossing that ends exactly on the matching scale with the upper   *)
+(* nf (zero-length last segment after the matching).  The two degenerate shapes are enumerated for two       *)
+(* solution methods only.                                                                                  *)
+Shapes == {"single", "up", "down", "point", "wall"}
+DegenerateMethods == {"iterate-exact", "truncated"}
 Invs == {"none", "exact", "expanded"}
 
 Configs == {c \in [qcd : 1..4, qed : 0..2, method : Methods, sv : Svs, pol : BOOLEAN, tl : BOOLEAN,
                    shape : Shapes, inv : Invs, emrun : BOOLEAN, top : BOOLEAN] :
               /\ (c.qed = 0 => ~c.emrun)
-              /\ (c.shape # "down" => c.inv = "none")}
+              /\ (c.shape # "down" => c.inv = "none")
+              /\ (c.shape \in {"point", "wall"} => c.method \in DegenerateMethods)}
 
 (* ---- availability of perturbative ingredients ---- *)
 AdAvailable(c) ==                       \* anomalous dimensions at order c.qcd
@@ -28,7 +34,7 @@ AdAvailable(c) ==                       \* anomalous dimensions at order c.qcd
 (* matching elements are parametrised for nf = 3, 4, 5 only                                *)
 N3loNfOk(c) == ~(c.qcd = 4 /\ c.top)
 QedMethodOk(c) == c.qed > 0 => c.method = "iterate-exact"
-HasMatching(c) == c.shape # "single" /\ c.qcd >= 2
+HasMatching(c) == c.shape \in {"up", "down", "wall"} /\ c.qcd >= 2
 (* matching elements: polarized through matching order 2; time-like beyond NLO is the   *)
 (* documented exception (silently absent); polarized time-like matching is refused        *)
 OmeRefused(c) == HasMatching(c) /\ c.pol /\ c.tl
@@ -45,7 +51,12 @@ Refuser(c) ==
 (* QED kernels are only defined for unpolarized space-like evolution; the code does not  *)
 (* look at the flags there.  The documentation is silent: either outcome is accepted,      *)
 (* a crash is not.                                                                         *)
-Unspecified(c) == c.qed > 0 /\ (c.pol \/ c.tl) /\ QedMethodOk(c) /\ ~OmeRefused(c) /\ N3loNfOk(c)
+(* On a zero-length segment no kernel is evaluated (the operator is the identity, apart from the expanded  *)
+(* scale-variation factor), so an unavailable ingredient may or may not be noticed: for the degenerate      *)
+(* shapes a clean refusal and a finite result are both accepted where the table would refuse.               *)
+Degenerate(c) == c.shape \in {"point", "wall"}
+Unspecified(c) == \/ c.qed > 0 /\ (c.pol \/ c.tl) /\ QedMethodOk(c) /\ ~OmeRefused(c) /\ N3loNfOk(c)
+                  \/ Degenerate(c) /\ Refuser(c) # "none"
 
 Expected(c) == IF Unspecified(c) THEN "any"
                ELSE IF Refuser(c) # "none" THEN "refused" ELSE "finite"
@@ -54,7 +65,7 @@ Expected(c) == IF Unspecified(c) THEN "any"
 TableOk == \A c \in Configs :
   /\ (Expected(c) = "refused") = (Refuser(c) # "none" /\ ~Unspecified(c))
   /\ (Expected(c) = "finite" => AdAvailable(c) /\ QedMethodOk(c) /\ N3loNfOk(c))
-  /\ (~AdAvailable(c) => Expected(c) = "refused")
+  /\ (~AdAvailable(c) /\ ~Degenerate(c) => Expected(c) = "refused")
 
 (* ---- C04 ---- *)
 Contains(s, sub) == \E k \in 0..(Len(s) - Len(sub)) : SubSeq(s, k + 1, k + Len(sub)) = sub
